@@ -758,24 +758,24 @@ def _run_check(chk, tier, thorough, runner, sd):
     newplat = dict(flavours=("full", "nodef"), templates=(), argvals=(), npvals=(), plats=P3, hows=("api",), howdel=("api",))
     plan = []   # (world, base, maxlevel, tag, consts)
     if not thorough:
-        plan += [("prefix", 0, 3, "full", dict(flavours=("full", "raw", "lenient"))), ("prefix", 1, 3, "small", small), ("prefix", 2, 3, "small", small),
+        plan += [("prefix", 0, 3, "full", dict(flavours=("full", "raw", "lenient"))), ("prefix", 1, 3, "small", small),
                  ("stage", 0, 3, "small", dict(small, hows=("api", "ref"), howdel=("api",))), ("dot", 0, 3, "small", dict(small, hows=("api", "ref"), howdel=("api",))),
                  ("loop", 1, 3, "small", dict(small, hows=("conf",), howdel=("conf",))),
                  ("plus", 0, 3, "small", dict(small, hows=("api",), howdel=("api",))), ("paren", 0, 2, "small", small),
                  ("prefix", 2, 3, "derived", derived), ("prefix", 0, 3, "newplat", newplat), ("stage", 1, 3, "newplat", newplat),
                  ("prefix", 0, 3, "alias", alias)]
         sim_worlds, (nsim, depth) = ("prefix", "stage"), (60, 40)
-        tr_plan = [("prefix", 0), ("prefix", 1), ("prefix", 2), ("stage", 0), ("dot", 0), ("loop", 1), ("plus", 0)]
-        ntr, ltr = 30, 40
+        tr_plan = [("prefix", 0), ("prefix", 1), ("prefix", 2), ("stage", 0), ("loop", 1), ("plus", 0)]
+        ntr, ltr = 24, 40
     else:
-        plan += [("prefix", b, 3, "full", everything) for b in (0, 1, 2)]
+        plan += [("prefix", 0, 3, "full", dict(everything, flavours=("full", "raw", "lenient", "noinj"))), ("prefix", 1, 3, "full", {}), ("prefix", 2, 3, "full", dict(plats=P3, **DERIVED))]
         plan += [("stage", b, 3, "full", {}) for b in (0, 1, 2)]
         plan += [("stage", 2, 3, "derived", derived), ("stage", 0, 3, "newplat", dict(newplat, hows=("api", "conf", "ref"), howdel=("api", "conf"), templates=("T2",))),
                  ("loop", 1, 3, "newplat", newplat), ("dot", 2, 3, "derived", derived), ("stage", 0, 3, "alias", alias), ("dot", 1, 3, "alias", alias)]
         plan += [("dot", 0, 3, "full", {}), ("loop", 0, 3, "full", {}), ("loop", 1, 3, "small", small)]
         plan += [("prefix", 0, 4, "deep", dict(flavours=("full", "lenient"), templates=("T5",), hows=("api",), howdel=("api",), vals=("2",)))]
         plan += [("plus", 0, 3, "small", small), ("plus", 1, 3, "small", small), ("paren", 0, 3, "small", small)]
-        sim_worlds, (nsim, depth) = ("prefix", "stage", "dot", "loop"), (400, 60)
+        sim_worlds, (nsim, depth) = ("prefix", "stage", "dot", "loop"), (300, 60)
         tr_plan = [(w, b) for w in ("prefix", "stage", "dot", "loop", "plus") for b in (0, 1, 2)]
         ntr, ltr = 150, 60
     with ThreadPoolExecutor(max_workers=1) as bg, ThreadPoolExecutor(max_workers=6) as ex:
